@@ -1540,11 +1540,12 @@ class Tensor:
         rank_ids[depth + 1] = id
 
         #
-        # Create new shape list
+        # Create new shape list: an authoritative shape is swapped
+        # like the rank ids
         #
-        # TBD: Create shape
-        #
-        shape = None
+        shape = copy.deepcopy(self.getShape(authoritative=True))
+        if shape:
+            shape[depth], shape[depth + 1] = shape[depth + 1], shape[depth]
 
         # Only call Fiber.swapRanks if there are actually payloads to swap
         if not all(fiber.isEmpty() for fiber in self.ranks[depth].fibers):
